@@ -234,7 +234,98 @@ fn one_wsstr(out: &mut Out, s: &str) {
     out.line("c05.wsstr", &hex(s.as_bytes()), &imp, &st, &ws_tag(s.as_bytes()));
 }
 
+/// long inputs: patterns of every block-ish length with a single differing byte at every
+/// position, whitespace runs of block length with every byte value next to / inside them, long
+/// repetition runs for the pattern trims
+fn stress(cfg: &Cfg, out: &mut Out) {
+    let sizes = block_sizes(if cfg.thorough { 300 } else { 130 });
+    let letters = b"abcdefgh";
+    for &l in &sizes {
+        if l == 0 {
+            continue;
+        }
+        let pat = filler(l, l as u64, letters);
+        let pats = std::str::from_utf8(&pat).unwrap().to_string();
+        for tail in ["", "tail"] {
+            // exact, then one byte flipped at every position (prefix and suffix side)
+            let mut h = pat.clone();
+            h.extend_from_slice(tail.as_bytes());
+            one_str(out, std::str::from_utf8(&h).unwrap(), &pats);
+            let mut h2 = tail.as_bytes().to_vec();
+            h2.extend_from_slice(&pat);
+            one_str(out, std::str::from_utf8(&h2).unwrap(), &pats);
+            for i in 0..l {
+                let mut m = pat.clone();
+                m[i] = b'Z';
+                let mut a = m.clone();
+                a.extend_from_slice(tail.as_bytes());
+                let mut b = tail.as_bytes().to_vec();
+                b.extend_from_slice(&m);
+                if tail.is_empty() || i % 3 == 0 {
+                    one_str(out, std::str::from_utf8(&a).unwrap(), &pats);
+                    one_str(out, std::str::from_utf8(&b).unwrap(), &pats);
+                }
+                if tail.is_empty() && (l % 8 <= 1 || i == l / 2) {
+                    one_bytes(out, &a, &pat);
+                }
+            }
+        }
+    }
+    // whitespace runs of block length with every byte value at their edge and inside them
+    for b in 0..=255u8 {
+        for k in [0usize, 1, 7, 8, 15, 16, 31, 32, 33, 63, 64, 65] {
+            let mut v = vec![b' '; k];
+            v.push(b);
+            v.extend_from_slice(b"am");
+            v.push(b);
+            v.extend(std::iter::repeat(b'\t').take(k));
+            one_ws(out, &v);
+            if k >= 7 {
+                let mut w = vec![b' '; k / 2];
+                w.push(b);
+                w.extend(std::iter::repeat(b'\n').take(k - k / 2));
+                w.extend_from_slice(b"x");
+                w.extend(std::iter::repeat(b'\r').take(k / 2));
+                w.push(b);
+                w.extend(std::iter::repeat(b' ').take(k - k / 2));
+                one_ws(out, &w);
+            }
+        }
+    }
+    for c in ['\u{a0}', '\u{3000}', '\u{85}', 'I', '`'] {
+        for k in [31usize, 32, 33, 64] {
+            let s = format!("{}{}core{}{}", " ".repeat(k), c, c, " ".repeat(k));
+            one_wsstr(out, &s);
+            let s2 = format!("{}{}{}", " ".repeat(k - 1), c, " ".repeat(k));
+            one_wsstr(out, &s2);
+        }
+    }
+    // long repetition runs / long needles for the pattern trims
+    for nl in [1usize, 2, 3, 8, 16, 31, 32, 33] {
+        let n = filler(nl, 77 + nl as u64, b"ab");
+        let ns = std::str::from_utf8(&n).unwrap().to_string();
+        for reps_l in [0usize, 1, 2, 5, 40] {
+            for reps_r in [0usize, 1, 3, 33] {
+                for core in ["", "x", "ab", "core-core"] {
+                    for partial in [0usize, 1] {
+                        let mut h = ns.repeat(reps_l);
+                        h.push_str(&ns[..(partial * (nl / 2)).min(nl)]);
+                        h.push_str(core);
+                        h.push_str(&ns[(nl - (partial * (nl / 2)).min(nl))..]);
+                        h.push_str(&ns.repeat(reps_r));
+                        if h.len() <= 1500 {
+                            one_str(out, &h, &ns);
+                        }
+                    }
+                }
+            }
+        }
+    }
+    let _ = cfg;
+}
+
 pub fn run(cfg: &Cfg, out: &mut Out) {
+    stress(cfg, out);
     // ------------------------------------------------------------ regression corpus first
     // F2: form feed is ASCII whitespace
     for s in [&b"\x0Cab\x0C"[..], b"\x0C", b" \x0C\t", b"\x0B a \x0B", b"\n\x0C\r x \x0C"] {
